@@ -230,4 +230,100 @@ theorem cfgText_cookieDefaults_ok : cfgText_cookieDefaults = ([
   "func sessionOptionsDefaults {",
   "{ return SessionOptions{ Type: CookieSessionStoreType, Cookie: CookieStoreOptions{ Minimal: false, }, } }"] : List String) := rfl
 
+theorem providerRefresh_ok : providerRefresh = ([
+  "## providers/adfs.go ADFSProvider.RefreshSession",
+  "if err != nil || s.Email != \"\"",
+  "return refreshed, err",
+  "return refreshed, err",
+  "## providers/azure.go AzureProvider.RefreshSession",
+  "if s == nil || s.RefreshToken == \"\"",
+  "return false, nil",
+  "p.redeemRefreshToken",
+  "if err != nil",
+  "return false, fmt.Errorf(\"unable to redeem refresh token: %v\", err)",
+  "fmt.Errorf",
+  "return true, nil",
+  "## providers/azure.go AzureProvider.redeemRefreshToken",
+  "if err != nil",
+  "return err",
+  "params.Add",
+  "params.Add",
+  "params.Add",
+  "params.Add",
+  "requests.New",
+  "params.Encode",
+  "if err != nil",
+  "return err",
+  "s.CreatedAtNow",
+  "if err != nil",
+  "return nil",
+  "## providers/gitlab.go GitLabProvider.RefreshSession",
+  "if refreshed && err == nil",
+  "return refreshed, err",
+  "## providers/google.go GoogleProvider.RefreshSession",
+  "if s == nil || s.RefreshToken == \"\"",
+  "return false, nil",
+  "p.redeemRefreshToken",
+  "if err != nil",
+  "return false, err",
+  "if !p.groupValidator(s)",
+  "return false, fmt.Errorf(\"%s is no longer in the group(s)\", s.Email)",
+  "fmt.Errorf",
+  "return true, nil",
+  "## providers/google.go GoogleProvider.redeemRefreshToken",
+  "if err != nil",
+  "return err",
+  "params.Add",
+  "params.Add",
+  "params.Add",
+  "params.Add",
+  "requests.New",
+  "params.Encode",
+  "if err != nil",
+  "return err",
+  "s.CreatedAtNow",
+  "return nil",
+  "## providers/keycloak_oidc.go KeycloakOIDCProvider.RefreshSession",
+  "if err != nil || !refreshed",
+  "return refreshed, err",
+  "return true, p.extractRoles(ctx, s)",
+  "p.extractRoles",
+  "## providers/oidc.go OIDCProvider.RefreshSession",
+  "if s == nil || s.RefreshToken == \"\"",
+  "return false, nil",
+  "p.redeemRefreshToken",
+  "if err != nil",
+  "return false, fmt.Errorf(\"unable to redeem refresh token: %v\", err)",
+  "fmt.Errorf",
+  "return true, nil",
+  "## providers/oidc.go OIDCProvider.redeemRefreshToken",
+  "if err != nil",
+  "return err",
+  "time.Now().Add",
+  "c.TokenSource(ctx, t).Token",
+  "c.TokenSource",
+  "if err != nil",
+  "return fmt.Errorf(\"failed to get token: %v\", err)",
+  "fmt.Errorf",
+  "p.createSession",
+  "if err != nil",
+  "return fmt.Errorf(\"unable create new session state from response: %",
+  "fmt.Errorf",
+  "if newSession.IDToken != \"\"",
+  "return nil",
+  "## providers/provider_default.go ProviderData.RefreshSession",
+  "return false, ErrNotImplemented"] : List String) := rfl
+
+theorem skel_OAuthProxy_redeemCode_ok : skel_OAuthProxy_redeemCode = ([
+  "req.Form.Get",
+  "if code == \"\"",
+  "return nil, providers.ErrMissingCode",
+  "p.getOAuthRedirectURI",
+  "if err != nil",
+  "return nil, err",
+  "if s.CreatedAt == nil",
+  "s.CreatedAtNow",
+  "if s.ExpiresOn == nil",
+  "return s, nil"] : List String) := rfl
+
 end O2P.Expect.C09
